@@ -56,6 +56,7 @@ class Target:
     rule: str = ""
     stateful: Any = None  # callable(ctx, n_examples, seed) running a RuleBasedStateMachine survey
     pin_budget: int = 400  # max evaluate() calls while shrinking one signature
+    pin_sigs: int = 5  # how many unlisted signatures get a shrink pass
     time_quick: float = 120.0
     time_thorough: float = 900.0
 
@@ -421,7 +422,7 @@ def run_check(pid: str, tier: str, seed: int, nshards: Optional[int] = None) -> 
         tname = rec["target"].replace("regress:", "")
         t = tmap.get(tname)
         case = rec["first"]
-        if t is not None and i < 5:
+        if t is not None and i < t.pin_sigs:
             case = pin(ctx, t, sig, rec["first"])
         h = hashlib.sha1(sig.encode()).hexdigest()[:12]
         path = os.path.join(env.VERIF, "replays", pid, f"{h}.json")
